@@ -155,6 +155,10 @@ UPPER, LOWER, DIGIT, OTHER = 0, 1, 2, 3
 REP = {UPPER: "Q", LOWER: "q", DIGIT: "7", OTHER: "-"}
 
 
+CLASS_QUERIES = [0]  # how often the function under test asked a symbolic character for its class
+BYPASS = "to_snake_case never asked a character for its class (it works on the string at C level, e.g. a regular expression): the character-class proxy cannot follow it"
+
+
 class SymChar(str):
     """one character of unknown identity whose class is a solver variable"""
 
@@ -170,9 +174,17 @@ class SymChar(str):
         return [self][k]
 
     def __iter__(self): return iter([self])
-    def isupper(self): return S.SymBool(self.kvar == UPPER)
-    def islower(self): return S.SymBool(self.kvar == LOWER)
-    def isdigit(self): return S.SymBool(self.kvar == DIGIT)
+    def isupper(self):
+        CLASS_QUERIES[0] += 1
+        return S.SymBool(self.kvar == UPPER)
+
+    def islower(self):
+        CLASS_QUERIES[0] += 1
+        return S.SymBool(self.kvar == LOWER)
+
+    def isdigit(self):
+        CLASS_QUERIES[0] += 1
+        return S.SymBool(self.kvar == DIGIT)
     def isalpha(self): return S.SymBool(z3.Or(self.kvar == UPPER, self.kvar == LOWER))
     def isalnum(self): return S.SymBool(self.kvar != OTHER)
     def lower(self): return self
@@ -244,12 +256,17 @@ class SnakeCase:
         # identifiers: only the first three classes occur in upstream names; 'other' kept to exercise the else branches
         c.notes["kv"] = kv
         text = SymText([SymChar(k, i) for i, k in enumerate(kv)])
+        CLASS_QUERIES[0] = 0
         try:
             out = to_snake_case(text)
         except Unsupported:
             raise
         except Exception as e:
+            if CLASS_QUERIES[0] == 0 and self.length >= 2:
+                raise Unsupported(BYPASS)
             raise Violation("no_exception_on_any_name", {"exception": type(e).__name__, "msg": str(e)[:100]})
+        if CLASS_QUERIES[0] == 0 and self.length >= 2:
+            raise Unsupported(BYPASS)
         s = str(out)
         # recover the underscore positions: walk the output against the input characters
         got = []
@@ -326,6 +343,9 @@ def index_generation():
 def task_snake(L):
     st = Stats()
     explore(SnakeCase(L), max_paths=6000, stats=st, deadline=time.time() + 240)
+    if st.paths == 0 and BYPASS in (st.unsupported_msgs or {}):
+        # the kernel is dropped from the claim for this run (DESIGN 2/C16), not reported as pass and not as failure
+        return {"length": L, "stats": Stats().to_json(), "not_followed": True}
     return {"length": L, "stats": st.to_json()}
 
 
@@ -347,8 +367,12 @@ def check(tier):
         if st.capped:
             inconclusive.append(f"kernel lemma {r['lemma']} hit a cap")
     lengths = [1, 2, 3, 4, 5] if tier == "quick" else [1, 2, 3, 4, 5, 6]
+    snake_not_followed = []
     for r in runner.pool_map(task_snake, lengths):
         st = Stats.from_json(r["stats"])
+        if r.get("not_followed"):
+            snake_not_followed.append(r["length"])
+            continue
         total.merge(st)
         rows.append({"kernel": f"to_snake_case length {r['length']}", "paths": st.paths, "queries": st.queries})
         if st.capped:
@@ -390,6 +414,8 @@ def check(tier):
                           "the JSON and their encodings solver-compared with the definition-driven reference on %d (class, version) pairs over %d shapes (%d symbolic paths in total)"
                           % (cnt["definitions"], cnt["classes_explored"], cnt["shapes"], total.paths))
     cov["kernels"] = rows
+    cov["kernels_dropped_from_the_claim"] = ([{"kernel": "to_snake_case on symbolic character classes", "lengths": snake_not_followed, "reason": BYPASS,
+                                               "still_covered_by": "the naming of the generated fields of the definition family (concrete names, end to end)"}] if snake_not_followed else [])
     cov["definition_groups"] = e2e["rows"]
     cov["observed_outside_claim"] = e2e["observed"]
     cov["refused_outside_supported_subset"] = cnt["refused_outside_subset"]
